@@ -158,7 +158,9 @@ def discharge_contracts(rep: Report, modname, n_contracts, timeout_ms, jobs=None
             rep.errors.append(f"{g['name']}: zero obligations generated")
         all_obs += g["queries"]
     t_solve = time.time()
-    D.run_queries(all_obs, jobs=jobs, timeout_ms=timeout_ms, thorough=(rep.tier == "thorough"), seed=rep.seed)
+    # the solve phase takes well under two minutes on the unchanged tree; the wall-clock budget only bounds the time spent when a change makes
+    # many obligations fail at once (each would otherwise run every stage to its timeout): what is cut off is reported as undecided
+    D.run_queries(all_obs, jobs=jobs, timeout_ms=timeout_ms, thorough=(rep.tier == "thorough"), seed=rep.seed, budget_s=(360 if rep.tier == "quick" else 1800))
     rep.extra["solve_wall_s"] = round(time.time() - t_solve, 1)
     rep.n_queries += len(all_obs)
     failed = {}
@@ -300,7 +302,11 @@ def triage(rep: Report, failed, replay_fn, ledger, known):
             rep.violations.append((p, res.get("text", ""), False))
             continue
         base = name
-        if ledger.get(base, {}).get("verdict") == "discharged":
+        cut_off = all(q.detail == "solve-phase deadline reached" for q in qs)
+        if cut_off:
+            # never examined to the end (wall-clock budget of the solve phase): undecided, whatever the ledger says
+            rep.undischarged.append(f"{name} line {cand.line}: not examined, solve-phase deadline reached")
+        elif ledger.get(base, {}).get("verdict") == "discharged":
             rec = {"property": rep.pid, "obligation": name, "source_line": cand.line, "solver_output": solver_out,
                    "note": "obligation is discharged on the unchanged tree (ledger.json) and is not discharged now; no failing input was found by replay / small-scope search"}
             p = write_replay(rep.pid, name, rec)
